@@ -24,7 +24,7 @@ static const entry_t pool[] = {
     /* result writers of every type */
     {"R:I8?", "rI,8,1,80,a"}, {"R:U16?", "rI,16,0,ffff,10"}, {"R:I64?", "rI,64,1,8000000000000000,a"}, {"R:U64?", "rI,64,0,ffffffffffffffff,2"}, {"R:HEX?", "rI,32,0,dead,16"}, {"R:OCT?", "rI,32,0,1ff,8"},
     {"R:TXT?", "rT,61226222/rT,2d"}, {"R:BLK?", "rK,0001020a0d3b"}, {"R:BLK0?", "rK,-"}, {"R:BH?", "rKH,4/rKD,6162/rKD,6364"}, {"R:BOVER?", "rKH,2/rKD,616263/rKD,6162"},
-    {"R:ARR?", "rA,2,0,00010203"}, {"R:ARRS?", "rA,4,1,0102030405060708"}, {"R:ARR0?", "rA,2,0,-/rI,32,1,5,a"}, {"R:ARR1?", "rA,1,0,414243"}, {"R:FOUR?", "rI,32,1,1,a/rB,1/rT,78/rC,4142"},
+    {"R:ARR?", "rA,2,0,00010203"}, {"R:ARRS?", "rA,4,1,0102030405060708"}, {"R:ARR0?", "rA,2,0,-/rI,32,1,5,a"}, {"R:ARR1?", "rA,1,0,414243"}, {"R:ARRI?", "rA,2,2,fffe0003,1"}, {"R:ARRF?", "rA,4,0,3fc00000c0490fdb,2"}, {"R:ARRD?", "rA,8,1,400921fb54442d18,2"}, {"R:ARRA?", "rA,1,2,00ff80,0"}, {"R:FOUR?", "rI,32,1,1,a/rB,1/rT,78/rC,4142"},
     {"R:DBL?", "rF,1,3ff8000000000000,312e35"}, {"R:FLT?", "rF,0,40490fdb,332e3134313539"},
     /* an entry without a handler, text copies into buffers of 0 and 1 bytes, a long array reader */
     {"NOOP", "null"}, {"TXT0", "pT,1,0"}, {"TXT1", "pT,1,1"}, {"ARRL", "pA,32,1,300,1"},
@@ -406,8 +406,11 @@ static size_t p17_script(char *script, size_t cap, int allow_headerless) {
             for (i = 0; i < len; i++) k += (size_t) sprintf(script + k, "%02x", h_below(256));
         } else if (kind < 6) {                                /* array: size, format, elements */
             unsigned sz = 1u << h_below(4), cnt = h_chance(15) ? 0 : 1 + h_below(h_chance(80) ? 6 : 37);
-            k += (size_t) sprintf(script + k, "rA,%u,%u,", sz, h_below(2)); if (!cnt) script[k++] = h_chance(50) ? 'N' : '-';
-            for (i = 0; i < cnt * sz; i++) k += (size_t) sprintf(script + k, "%02x", h_below(256));
+            /* element type: unsigned, signed, or (4 / 8 bytes) float / double; NORMAL, SWAPPED, or (integers) ASCII */
+            unsigned ekind = h_below(sz >= 4 ? 3 : 2), fmt = h_below(ekind == 2 ? 2 : 3);
+            k += (size_t) sprintf(script + k, "rA,%u,%u,", sz, fmt); if (!cnt) script[k++] = h_chance(50) ? 'N' : '-';
+            for (i = 0; i < cnt * sz; i++) k += (size_t) sprintf(script + k, "%02x", h_chance(85) ? h_below(256) : (h_chance(50) ? 0xffu : 0x80u));
+            k += (size_t) sprintf(script + k, ",%u", ekind);
         } else if (kind < 9) {                                /* streamed: header then data chunks */
             unsigned sent = 0, target = len, mode = h_below(5);   /* 0 exact, 1 short, 2 over-length chunk then rest, 3 zero-length chunks, 4 exact */
             k += (size_t) sprintf(script + k, "rKH,%u", len);
